@@ -55,6 +55,7 @@ type Engine struct {
 	models          map[string]*model
 	extraOverlay    map[string]string // path -> replacement file (self-test mutations)
 	curProp         string            // property being checked in this run
+	specQuant       map[*ssa.Function]bool
 	misfits         []*Contract       // contracts whose clauses no longer type-check against the code
 	constGlobals    map[*ssa.Global]*ssa.Const
 }
